@@ -243,7 +243,7 @@ BP_COMMON = [
     "forall(j, 0, len(result[0]), InBounds(result[0][j]))",
 ]
 contract(
-    PF, "FlowProposal.backward_pass", props=["C08", "C09"],
+    PF, "FlowProposal.backward_pass", props=["C08", "C09", "C01"],
     self_shape="FlowProposalDens",
     params={"z": ZT, "rescale": ("const", True),
             "discard_nans": ("const", True), "return_z": ("const", True)},
@@ -267,7 +267,7 @@ contract(
     returns=f"Tuple({PT},Seq(Real))",
     ensures=BP_COMMON,
 )
-contract(PF, "FlowProposal.check_prior_bounds", props=["C08", "C09"],
+contract(PF, "FlowProposal.check_prior_bounds", props=["C08", "C09", "C01"],
          inline=True, verify=False, params={"x": PT},
          notes="inlined at its call sites (one boolean mask applied to "
          "every array passed)")
